@@ -73,6 +73,13 @@ def check(prop, tier='quick', repo=None, only=None, quiet=False, write=True):
     if tier == 'thorough':
         from sa import selfcheck as sc
         selfcheck = sc.run(prop, say)
+        try:
+            from sa import mutate
+            gm = mutate.run(prop, say, limit=int(os.environ.get('VERIF_GENERIC_MUTANTS', '400')))
+            selfcheck['generic'] = dict(generated=gm['generic_mutants'], reported=gm['generic_detected'], analysis_errors=gm['generic_errors'],
+                                        survived=len(gm['survivors']), by_kind=gm['by_kind'], survivors_sample=gm['survivors'][:40])
+        except Exception as e:   # exploration only: never affects the verdict
+            say('  generic mutant exploration skipped: %s' % e)
         if selfcheck.get('failed'):
             nerr += 1
             lines.append('ANALYSIS-ERROR property=%s self-validation failed: %s' % (prop, selfcheck['failed'][:3]))
@@ -119,7 +126,8 @@ def write_evidence(prop, tier, seed, results, repo, wall, errors=0, selfcheck=No
     if selfcheck is not None:
         cov.update(seeded_faults=selfcheck.get('faults', 0), faults_detected=selfcheck.get('detected', 0),
                    benign_twins=selfcheck.get('twins', 0), twins_silent=selfcheck.get('silent', 0),
-                   selfcheck_skipped=selfcheck.get('skipped', 0), selfcheck_failed=selfcheck.get('failed', []))
+                   selfcheck_skipped=selfcheck.get('skipped', 0), selfcheck_failed=selfcheck.get('failed', []),
+                   generic_single_edit_mutants=selfcheck.get('generic', {}))
     ev = dict(property_id=prop, tier=tier, seed=seed, level='other', coverage=cov,
               assumptions=sorted(axioms) + ['python ast of /repo/src/pyg_base is the program that runs (no import hooks, no monkeypatching)'],
               wall_s=round(wall, 3), violations=cov['violations'])
